@@ -687,6 +687,75 @@ def read_and_remove_failures(ctx, workdir):
                      repr(g)[:80], None)
 
 
+def overwrites_stamps_and_shared_instances(ctx, workdir):
+    """(a) an entry overwritten by a shorter one holds exactly the shorter one; (b) a version stamp that is not even
+    text (torn in the middle of a character, binary) is a foreign stamp: the cache opens, cleared, and never raises;
+    (c) one cache INSTANCE used for several clients hands each its own object: a client keeps the options it was
+    built with whatever a later client over the same instance asks for."""
+    import suds.cache
+    from suds.sax.parser import Parser
+    big_doc = Parser().parse(string=("<d n='1'>%s</d>" % ("<c>long text</c>" * 200)).encode())
+    small_doc = Parser().parse(string=b"<d n='2'/>")
+    for cls, big, small, same in (
+            (suds.cache.FileCache, b"L" * 5000, b"s", lambda g, v: g == v),
+            (suds.cache.ObjectCache, {"k": ["x" * 100] * 50}, {"k": 1}, lambda g, v: g == v),
+            (suds.cache.DocumentCache, big_doc, small_doc, lambda g, v: g is not None and g.root().get("n") == v.root().get("n")
+             and len(g.root().children) == len(v.root().children))):
+        d = tempfile.mkdtemp(dir=workdir)
+        c = cls(location=d)
+        ctx.case(("overwrite-shorter", cls.__name__), True)
+        try:
+            c.put("k", big)
+            c.put("k", small)
+            g = c.get("k")
+            g2 = cls(location=d).get("k")
+        except Exception as e:
+            ctx.fail("cache raised while an entry was overwritten", {"class": cls.__name__}, repr(e), "no exception")
+            continue
+        if not same(g, small) or not same(g2, small):
+            ctx.fail("after an entry is overwritten by a shorter one a lookup does not return the most recent object",
+                     {"class": cls.__name__}, [repr(g)[:80], repr(g2)[:80]], repr(small)[:80])
+    for stamp in (b"\xff\xfe\x00\x01", b"1.\xc3", b"\x00" * 16, ("%s\n" % __import__("suds").__version__).encode() + b"\xe9"):
+        d = tempfile.mkdtemp(dir=workdir)
+        c = suds.cache.ObjectCache(location=d)
+        c.put("k", {"a": 1})
+        with open(os.path.join(d, "version"), "wb") as f:
+            f.write(stamp)
+        meta = {"stream": "stamp-bytes", "stamp": repr(stamp)}
+        ctx.case(common.canon(meta), True)
+        try:
+            c2 = suds.cache.ObjectCache(location=d)
+            g = c2.get("k")
+        except Exception as e:
+            ctx.fail("a cache folder with an unreadable version stamp makes the cache raise", meta, repr(e), "an empty cache")
+            continue
+        if g is not None:
+            ctx.fail("entries stamped by something that is not this version are served", meta, repr(g), None)
+    # (c)
+    schema = ('<xsd:element name="f"><xsd:complexType><xsd:sequence><xsd:element name="a" type="xsd:string"/></xsd:sequence>'
+              '</xsd:complexType></xsd:element>')
+    w = wsdlkit.wsdl_doc(schema, "f", None)
+    d = tempfile.mkdtemp(dir=workdir)
+    shared = suds.cache.ObjectCache(location=d)
+    ctx.case(("shared-cache-instance",), True)
+    try:
+        cold = [wsdlkit.envelope_bytes(wsdlkit.client(w, nosend=True, prefixes=p).service.f("v")) for p in (True, False)]
+        c1 = wsdlkit.client(w, nosend=True, prefixes=True, cache=shared, cachingpolicy=1)
+        c2 = wsdlkit.client(w, nosend=True, prefixes=False, cache=shared, cachingpolicy=1)
+        c3 = wsdlkit.client(w, nosend=True, prefixes=True, cache=shared, cachingpolicy=1)
+        got = [wsdlkit.envelope_bytes(c.service.f("v")) for c in (c1, c2, c3, c1)]
+        distinct = len({id(c.wsdl) for c in (c1, c2, c3)})
+    except Exception as e:
+        ctx.fail("clients over one cache instance could not be built / used", {"stream": "shared-cache-instance"}, repr(e),
+                 "requests")
+        return
+    want = [cold[0], cold[1], cold[0], cold[0]]
+    if got != want or distinct != 3:
+        ctx.fail("clients built over one cache instance do not each keep the options they were given",
+                 {"stream": "shared-cache-instance"}, [[g.decode()[:300] for g in got], distinct],
+                 [[g.decode()[:300] for g in want], 3])
+
+
 def run(ctx):
     # (the directory's name holds characters that mean something to glob / fnmatch / regular expressions)
     workdir = tempfile.mkdtemp(prefix="verif-c11 [v1]*?-")
@@ -696,6 +765,7 @@ def run(ctx):
         stress(ctx, workdir)
         write_failures(ctx, workdir)
         read_and_remove_failures(ctx, workdir)
+        overwrites_stamps_and_shared_instances(ctx, workdir)
         shared_dir(ctx, workdir)
         url_case(ctx, workdir)
         warm_clients(ctx, workdir)
